@@ -223,8 +223,15 @@ func init() {
 			}
 		}
 		if cps := c.Fn("x/pairing/keeper/scores.CalcPairingScore"); cps != nil {
-			bad := ""
-			var at ssa.Instruction
+			bad, allFactors := "", ""
+			var at, allAt ssa.Instruction
+			defer func() {
+				if allFactors == "" {
+					c.OK("C40g/CalcPairingScore/product-over-all-stored-components", c.P.Pos(cps.Pos()), "range over score.ScoreComponents")
+				} else {
+					c.Fail("C40g/CalcPairingScore/product-over-all-stored-components", c.P.InstrPos(allAt), "the provider's score "+allFactors+": for the second and later slot groups only the differing requirement is re-scored, so the stake factor drops out of the product")
+				}
+			}()
 			ir.EachInstr(cps, func(in ssa.Instruction) {
 				if call := ir.CallOf(in); call != nil {
 					n := ir.CalleeName(call)
@@ -240,6 +247,9 @@ func init() {
 								seedOK = true
 							} else if cl, ok := leaf.(*ssa.Call); !ok || ir.CalleeName(&cl.Call) != "cosmossdk.io/math.LegacyDec.Mul" {
 								bad, at = "builds the score from "+trunc(ir.Desc(leaf), 80), in
+							} else if f := ir.DescN(cl.Call.Args[1], 8); !(strings.HasPrefix(f, "next(range(") && strings.Contains(f, ".ScoreComponents") && strings.HasSuffix(f, "#2")) {
+								// the factors are all stored components (stake and geo), not only those re-scored for this slot group's diff
+								allFactors, allAt = "multiplies "+trunc(f, 90)+" rather than every entry of ScoreComponents", in
 							}
 						}
 						if !seedOK && bad == "" {
